@@ -13,10 +13,10 @@
   |-------------------------------------------|--------------------------------------------------------|---------|
   | `C02.nextEpoch_popInv`                    | `UidInv` (membership + counter), `SpIdInv` (ids)       | none    |
   | `C02.nextEpoch_no_error`, `nextEpoch_popOk` | `OptsOk`; `PopOk`: uid, spid, size, `perm` (already a `List.Perm`), nodup, nonempty, unmarked / pool / shaped (membership), recs (registry) | none of `PopOk` (`popOk_evalPerm`) |
-  |                                           | `QuotaOk o p` (the rounded quota computation ON p)     | not transferable for an arbitrary scalar: `adjustFitness` re-sorts with a non-stable sort and sums in list order, so ties / float sums may differ.  It is a hypothesis about the population that ENTERS the epoch, and is stated on that population (`q`) below; C20 (3) states it on the population the evaluator returned, so nothing is lost there |
+  |                                           | `QuotaOk o p` (the rounded quota computation ON p)     | not transferable for an arbitrary scalar: `adjustFitness` re-sorts with a non-stable sort and sums in list order, so ties / float sums may differ.  It is a hypothesis about the population that ENTERS the epoch, and is stated on that population (`q`) below; C20 (3) states it on the population the evaluator returned, so nothing is lost there.  In EXACT arithmetic it is a theorem under order-insensitive hypotheses: `C09.quotaOk_exact_perm` (Props/C09QuotaExact.lean) |
   | `C02.runEpochs_inv`, `runEpochs_no_error` | `SameShape q (ev q)` / `EvalOk q (ev q)`               | BROKEN (ordered `ukey`) - replaced by `SameShapePerm` / `EvalOkPerm` |
   | `C10.nextEpoch_keeps_champion`            | `UidInv`, ids `Nodup`, `ScZero`, `RefsOkPop` (all membership) | none (Props/C10Perm.lean) |
-  | `C10.runEpochs_keeps_champions`           | `EvalKeeps` ⊇ `SameShape`                              | BROKEN in the same way (not redone here) |
+  | `C10.runEpochs_keeps_champions`           | `EvalKeeps` ⊇ `SameShape`                              | BROKEN in the same way - redone under `C10.EvalKeepsPerm`: `C10.runEpochs_keeps_champions_perm` (Props/C10Perm.lean) |
   | `C09.prepare_expected(_full)`             | ids `Nodup`                                            | none; the conclusion speaks of the population that enters the epoch (its mean is summed in its order) |
   | `C09.mean_values_perm`                    | `organisms.Perm (orgUids species)` (already a Perm)    | none    |
   | `C01.nextEpoch_closed`                    | `PoolOk reg (X ++ genomesOfPop p)` (membership)        | none    |
